@@ -166,7 +166,7 @@ FILTERS: dict[str, tuple[str, list[str], str]] = {
     "times": ("num", ["num"], "num"),
     "divided_by": ("num", ["num"], "num"),
     "modulo": ("num", ["num"], "num"),
-    "json": ("any", ["int?"], "str"),
+    "json": ("any", ["indent?"], "str"),
     "date": ("date", ["datefmt"], "str"),
     "safe": ("str", [], "str"),
 }
@@ -515,6 +515,9 @@ class Gen:
                     args.append(["pos", ["str", self.pick(list(ITEM_KEYS) + ["missing"])]])
                 elif at == "list":
                     args.append(["pos", self.prim("list", 0)])
+                elif at == "indent":
+                    # huge indents are a known finding (C02 json-indent-memoryerror): GBs per render
+                    args.append(["pos", ["int", self.i(0, 6)]])
                 else:
                     args.append(["pos", self.prim(at, max(depth - 1, 0))])
             if name == "default" and self.p(0.3):
